@@ -9,7 +9,7 @@ import tempfile
 
 import numpy as np
 
-from vf import gen, probes
+from vf import gen, plumbing, probes
 
 PID = "C15"
 ANCHORS = ["pyoma2.algorithms.base:BaseAlgorithm._pre_run", "pyoma2.algorithms.base:BaseAlgorithm._set_data", "pyoma2.algorithms.base:BaseAlgorithm._set_result",
@@ -40,7 +40,17 @@ POOLS = [["FDD", "SSIcov", "pLSCF"], ["EFDD", "SSIdat", "FSDD"], ["SSIcov", "nop
          ["FDD", "FDD@cor", "EFDD@256"]]
 
 
+PLUMB_CLASSES = ['FDD', 'EFDD', 'FSDD', 'SSIcov', 'SSIdat', 'pLSCF', 'FDD_MS', 'SSIcov_MS']
+PLUMB_FIELDS = None
+REQUIRED_MONITORS = list(REQUIRED_MONITORS) + [f"plumbing:{s_}" for s_ in plumbing.SCENARIOS]
+REQUIRED_STATES = list(REQUIRED_STATES) + [f"plumbing scenario {s_}" for s_ in plumbing.SCENARIOS]
+
+
 def cases(tier, seed):
+    return _cases(tier, seed) + plumbing.cases(len(plumbing.SCENARIOS) * len(PLUMB_CLASSES) * (1 if tier == "quick" else 6), PLUMB_CLASSES)
+
+
+def _cases(tier, seed):
     L = 3 if tier == "quick" else 4
     out = []
     for pi, pool in enumerate(POOLS):
@@ -437,6 +447,8 @@ def run_poser(ctx, case):
 
 
 def run_case(ctx, case):
+    if case["cls"] == "plumbing":
+        return plumbing.run_case(ctx, case, gen.rng_of(case), PLUMB_FIELDS)
     c = case["cls"]
     if c == "enumerated":
         run_enumerated(ctx, case)
